@@ -66,12 +66,66 @@ def op_c01(args):
             else:
                 seen = set()
                 for path, field, detail in refs.ident_diff(code, r, nan_bits=True):
+                    if field == "co_lnotab":
+                        field = _classify_lnotab_diff(code, r, path)
                     if field in seen:
                         continue
                     seen.add(field)
                     v.violate("field_differs", field, "%s: %s" % (path, detail))
     v.info["nontrivial"] = bool(agg["nested"] or agg["njump"] or agg["nent"] >= 2)
     return v.result()
+
+
+def _find_pair(a, b, path):
+    """the pair of code objects at `path` (as produced by refs.walk_codes)"""
+    for (p, x), (q, y) in zip(refs.walk_codes(a), refs.walk_codes(b)):
+        if p == path:
+            return x, y
+    return None, None
+
+
+def mid_instruction_entries(c):
+    """<=3.9: addresses of lnotab entries that fall strictly inside a multi-unit
+    instruction (left there by the peephole optimizer's per-code-unit remap)."""
+    inner = {}
+    for first, off, opc, arg in refs.units(c.co_code):
+        for o in range(first + 2, off + 2, 2):
+            inner[o] = first
+    out = []
+    addr = 0
+    tab = c.co_lnotab
+    for i in range(0, len(tab), 2):
+        addr += tab[i]
+        if addr in inner:
+            out.append(addr)
+    return out, inner
+
+
+def _classify_lnotab_diff(code, r, path):
+    """co_lnotab differs: is the whole difference explained by entries that sit
+    inside an instruction (known finding) -- i.e. same line at the first unit of
+    every instruction, and lines differ only at units of instructions that
+    contain such an entry?"""
+    try:
+        x, y = _find_pair(code, r, path)
+        if x is None or x.co_code != y.co_code:
+            return "co_lnotab"
+        mids, inner = mid_instruction_entries(x)
+        if not mids:
+            return "co_lnotab"
+        affected = set(inner[a] for a in mids)
+        for first, off, opc, arg in refs.units(x.co_code):
+            if refs.addr2line(x, first) != refs.addr2line(y, first):
+                return "co_lnotab"
+            if first not in affected:
+                for o in range(first, off + 2, 2):
+                    if refs.addr2line(x, o) != refs.addr2line(y, o):
+                        return "co_lnotab"
+        if len(x.co_lnotab) != len(y.co_lnotab):
+            return "co_lnotab"
+        return "co_lnotab:mid_instruction_entry"
+    except Exception:
+        return "co_lnotab"
 
 
 # ------------------------------------------------------------------ helpers for decoded views
